@@ -729,7 +729,11 @@ func ruleGoroutines(w *World, r *Report, rule string) {
 					}
 					first = false
 				}
-				seen[b] = true
+				// the block of the Go call is looked at from the call on at first; reached again round the loop it is
+				// looked at from its top (what the spawner does before the next Go runs beside the earlier workers)
+				if from == 0 {
+					seen[b] = true
+				}
 				stop := false
 				for _, in := range b.Instrs[from:] {
 					if in == wait.(ssa.Instruction) {
